@@ -59,6 +59,13 @@ func init() {
 	pt.stream = 160 // short stream, replayed often: n-grams recur at shifted positions
 	pt.badCfgPct = 0
 	suites["p-reset"] = pSuite(pt, []string{"p.twin.fresh"})
+	ps := pt
+	ps.staleBias = true
+	ps.wShrink = 3
+	for _, k := range allKinds {
+		suites["p-reset-stale-"+k] = pSuite(ps.withKinds(k), []string{"p.twin.fresh"})
+	}
+	suites["p-reset-stale"] = pSuite(ps, []string{"p.twin.fresh"})
 	po := profGeneral.withKinds("OSAP")
 	po.ntlPct = 10
 	suites["p-osap"] = pSuite(po, []string{"osap.block.withmatches"})
